@@ -127,9 +127,9 @@ func main() {
 	}
 	out := vlib.NewOut(a, "From V Require Import Corr.Run_C10.", "gcase", 250)
 	rng := vlib.NewRand(a.Seed)
-	n, nh := 500, 250 // single-pass stores, histories with 2-4 passes
+	n, nh := 460, 200 // single-pass stores, histories with 2-4 passes
 	if a.Thorough() {
-		n, nh = 8000, 4000
+		n, nh = 8000, 3500
 	}
 	tuples := [][]string{{"a"}, {"b"}, {"c-d"}, {"e"}, {"f\\"}, {"g"}, {"h"}, {""}}
 	ages := []int64{0, int64(5 * time.Second), int64(60 * time.Second), int64(time.Hour), -int64(time.Hour), int64(24 * time.Hour)}
